@@ -230,7 +230,11 @@ func (g *msgGen) header() string {
 	if g.r.Intn(3) == 0 {
 		rc = g.r.Intn(16)
 	}
-	return fmt.Sprintf("h=%d,%d,%d,%d,%d,%d,%d,%d,%d,%d", g.u16(), bit(), op, bit(), bit(), bit(), bit(), bit(), bit(), rc)
+	z := 0 // the reserved bit Z is set in a quarter of the headers
+	if g.r.Intn(4) == 0 {
+		z = 1
+	}
+	return fmt.Sprintf("h=%d,%d,%d,%d,%d,%d,%d,%d,%d,%d,%d", g.u16(), bit(), op, bit(), bit(), bit(), bit(), bit(), bit(), rc, z)
 }
 
 // msg returns the message tokens.
